@@ -15,17 +15,28 @@ import json
 from ..common import *
 
 
+def expr_of(c, l=None, r=None, erg=True):
+    l = c["l"] if l is None else l
+    r = c["r"] if r is None else r
+    if c["op"] == "neg":
+        return f"-{l}" if l.startswith("(") or not erg else f"-({l})"
+    if c["op"] == "not":
+        return f"not({l})" if erg else f"(not {l})"
+    return f"{l} {c['op']} {r}"
+
+
 def case_src(i, c):
-    e = f"{c['l']} {c['op']} {c['r']}"
-    return f"N{i} = {e}\nprint! \"C{i}\", N{i}\n"
+    return f"N{i} = {expr_of(c)}\nprint! \"C{i}\", N{i}\n"
 
 
 def runtime_src(i, c):
+    if c["op"] in ("neg", "not"):
+        return f"f{i} x = {expr_of(c, 'x', 'x')}\nprint! \"R{i}\", f{i}({c['l']})\n"
     return f"f{i} x, y = x {c['op']} y\nprint! \"R{i}\", f{i}({c['l']}, {c['r']})\n"
 
 
 def pyval(c):
-    e = f"{c['l']} {c['op']} {c['r']}"
+    e = expr_of(c, erg=False)
     if c["op"] == "**" and c["vt"] == "skip":
         return "SKIP"     # huge or negative exponents are outside the explored space
     try:
@@ -66,7 +77,7 @@ def run(ctx):
     diagnosed = accepted = judged = 0
     for i, (c, rr) in enumerate(zip(cases, results)):
         o = rr["compile"]
-        expr = f"{c['l']} {c['op']} {c['r']}"
+        expr = expr_of(c)
         if "panic" in o or "hang" in o or "abort" in o:
             site = o.get("panic") or o.get("abort") or "hang"
             what = "overflow" if "overflow" in site else ("divide-by-zero" if "divide by zero" in site or "division by zero" in site or "divisor of zero" in site else "panic")
